@@ -67,6 +67,9 @@ def new_bay(it):
     it.call(it.getattr(bay, 'add_panel'), [], dict(y1=ycut, y2=b))
     it.call(it.getattr(bay, 'add_bladestiff2d'), [], dict(ys=ycut, bf=real('bf'), fstack=[real('thf')], fplyt=real('tf'),
                                                           flaminaprop=(real('Ef'), real('Ef'), real('nuf')), mf=integer('mf'), nf=integer('nf')))
+    # ... and a 1-D blade stiffener (beam constants E1, S1, F1, Jxx derived from its two-ply flange laminate on every rebuild)
+    it.call(it.getattr(bay, 'add_bladestiff1d'), [], dict(ys=ycut, bf=real('bf1'), fstack=[real('thf1'), real('thf2')], fplyt=real('tf1'),
+                                                          flaminaprop=(real('Ef'), real('Ef'), real('nuf'))))
     return bay
 
 
@@ -155,6 +158,11 @@ def check_kind(led, kind, label, new, ops):
             for fn, f in list(smod.g.items()):
                 if isinstance(f, pysym.Func) and fn.startswith('fkC'):
                     it.contracts[f.qualname] = panelctx.kernel_contract(it, f, calls)
+        smod1 = it.module('compmech.stiffener.models.bladestiff1d_clt_donnell_bardell')
+        for fn, f in list(smod1.g.items()):
+            if isinstance(f, pysym.Func) and fn in ('fk0f', 'fkG0f', 'fkMf'):
+                it.contracts[f.qualname] = panelctx.kernel_contract(it, f, calls)
+        it.algebraic_minmax = True
         it.facts += [to_z3(real('a')) > 0, to_z3(real('b')) > 0, to_z3(real('ycut')) > 0, to_z3(real('ycut')) < to_z3(real('b'))]
         # the cut lies strictly inside the bay: numpy.isclose(ys, 0) / isclose(ys, b) taken as equality
         it.np.isclose = lambda x, y, **k: pysym.compare('==', x if isinstance(x, P) else P.const(x), y if isinstance(y, P) else P.const(y))
@@ -230,5 +238,5 @@ out = {'max_abs_fresh': float(abs(fresh).max()), 'max_abs_difference': float(abs
 def check(led):
     check_kind(led, 'assembly', AF, new_assembly, ASM_OPS)
     check_kind(led, 'bay', BF, new_bay, BAY_OPS)
-    led.bounded_item('C20 assemblies / bays: histories of length two over %d assembly and %d bay methods; two panels, one connection / two skin panels, one 2-D blade stiffener'
+    led.bounded_item('C20 assemblies / bays: histories of length two over %d assembly and %d bay methods; two panels, one connection / two skin panels, one 2-D and one 1-D blade stiffener'
                      % (len(ASM_OPS), len(BAY_OPS)))
